@@ -33,7 +33,8 @@ def k50(args):
         else:
             body = operand
         cls = Forall if kd == 0 else Exists
-        qs.append(cls(*qvars, body, world=world_of(w), fully_grounded=bool(full)))
+        kw = {} if full == 0 else {"fully_grounded": full == 1}     # 0: the flag is not passed at all
+        qs.append(cls(*qvars, body, world=world_of(w), **kw))
     used = set(q[1] for q in qobjs)
     model = Model()
     rts = [qs[i] for i in range(len(qs)) if (nb + i) not in used] + [objs[r] for r in roots if r not in used]
@@ -65,6 +66,9 @@ def k50(args):
             res.append([fr(r), dump()])
         elif t == 8:
             model.add_data({objs[op[1]]: data_dict(op[2])})
+            res.append([dump()])
+        elif t == 15:
+            objs[op[1]].reset_bounds()
             res.append([dump()])
         elif t == 12:
             g = op[2]
